@@ -726,12 +726,14 @@ def main(argv):
             sname, d, c, binp, proj_rx = item
             if STREAMS[sname].get('confirm') and len(kept) == 0:
                 ops = ops_of_case(c)
-                again = False
+                hits = 0
                 for _ in range(3):
                     _pr, _div, _fails = single_case_eval(sname, binp, prop, ops, workdir, proj_rx, tag='confirm')
                     if _div:
-                        again = True
+                        hits += 1
+                    if hits >= 2:
                         break
+                again = hits >= 2
                 if not again:
                     transients.append(dict(stream=sname, divergence=d, ops=len(ops)))
                     continue
